@@ -296,6 +296,22 @@ def execute(case: dict) -> dict:
                     o['I_right'], _ = _close(terms.flatten_value(op(inv(y))), terms.flatten_value(y), itol * 20)
                     ii = inv.I
                     o['II_ok'], o['II_err'] = _close(terms.dense_of(ii), want, itol, rel=True)
+                if not closed and case.get('spd'):
+                    # the iterative solver under other solver settings: A z = y to the configured tolerance
+                    from furax import Config
+                    ok = True
+                    for rtol_, steps in ((1e-3, 60), (1e-5, 200)):
+                        with Config(solver=lx.CG(rtol=rtol_, atol=rtol_, max_steps=steps), solver_callback=lambda s: None):
+                            inv2 = op.I
+                        y = _rand_int_tree(op.out_structure(), rng)
+                        z = inv2(y)
+                        res = terms.flatten_value(op(z)) - terms.flatten_value(y)
+                        ynorm = max(1.0, float(np.linalg.norm(terms.flatten_value(y))))
+                        cond = float(np.linalg.cond(want))
+                        if not (np.linalg.norm(res) <= 20 * rtol_ * cond * ynorm):
+                            ok = False
+                            o['solver_residual'] = [rtol_, float(np.linalg.norm(res)), ynorm, cond]
+                    o['solver_settings_ok'] = ok
         guarded('I', i_group)
     return out
 
@@ -315,7 +331,7 @@ CLAUSES = {
             ('reduce_out_actual', 'reduced_out_structure_vs_result')],
     'C06': [('I_ok', 'inverse_matrix'), ('I_finite', 'inverse_finite'), ('I_as_matrix_ok', 'inverse_as_matrix'),
             ('I_as_matrix_finite', 'inverse_as_matrix_finite'), ('I_left', 'inverse_left'), ('I_right', 'inverse_right'),
-            ('II_ok', 'double_inverse')],
+            ('II_ok', 'double_inverse'), ('solver_settings_ok', 'solver_tolerance')],
     'C08': [('sym_T_is_self', 'symmetric_T_is_self'), ('orthogonal_true', 'orthogonal'), ('orth_I_is_T', 'orthogonal_inverse'),
             ('square_true', 'square')],
     'C10': [('dense_ok', 'block_matrix'), ('as_matrix_ok', 'as_matrix'), ('T_ok', 'transpose_matrix'),
